@@ -1118,7 +1118,72 @@ def check_axis(case):
     return {"nt": True, "labels": [f"system:{system}", f"batch:{case['batch']}"]}
 
 
+# ---------------------------------------------------------------------------------------
+# image data of a vector field on a polar grid (the data behind quiver/stream plots; after missed seed
+# C19-5: the basis rotation was evaluated at phi = 0 for every image point)
+# ---------------------------------------------------------------------------------------
+@st.composite
+def vector_image_cases(draw):
+    gspec = draw(curvilinear_grids(classes=("polar",), n_lo=3, n_hi=12))
+    return {"grid": gspec, "seed": draw(st.integers(0, 2**31)), "random_data": draw(st.booleans()),
+            "profiles": [draw(profile_spec()), draw(profile_spec())],
+            "transpose": draw(st.sampled_from([False, False, True]))}
+
+
+def check_vector_image(case):
+    gspec = case["grid"]
+    grid = build_grid(gspec)
+    names = order_of(gspec)  # ("r", "phi")
+    r, z = mesh(gspec)
+    if case["random_data"]:
+        data = rng_array(case["seed"], (2,) + tuple(grid.shape), "f8")
+    else:
+        data = np.stack([Profile(p, gspec).f(r, z) + np.zeros(grid.shape) for p in case["profiles"]])
+    V = pde.VectorField(grid, data)
+    img = V.get_vector_data(transpose=case["transpose"])
+    # the scalar images of the two stored components (independent of any basis rotation)
+    comp = {nm: grid.get_image_data(data[k]) for k, nm in enumerate(names)}
+    xs, ys = comp["r"]["xs"], comp["r"]["ys"]
+    vr, vp = np.asarray(comp["r"]["data"], dtype=float), np.asarray(comp["φ"]["data"], dtype=float)
+    phi = np.arctan2(ys, xs)
+    want_x = vr * np.cos(phi) - vp * np.sin(phi)
+    want_y = vr * np.sin(phi) + vp * np.cos(phi)
+    got_x, got_y = np.asarray(img["data_x"], dtype=float), np.asarray(img["data_y"], dtype=float)
+    if case["transpose"]:
+        # documented: x and y (and the data arrays) are exchanged
+        got_x, got_y = got_y.T, got_x.T
+    if got_x.shape != want_x.shape or got_y.shape != want_y.shape:
+        raise Violation(f"vector image of shape {got_x.shape}/{got_y.shape}, scalar images of shape {want_x.shape}",
+                        key="vector-image:shape")
+    ok = np.isfinite(want_x) & np.isfinite(want_y)
+    rr = np.hypot(xs, ys)
+    ok &= rr > 1e-9  # (phi is undefined at the origin)
+    if np.any(np.isfinite(got_x) != np.isfinite(want_x)):
+        raise Violation("vector image is defined at other points than the scalar images of its components",
+                        key="vector-image:mask")
+    scale = float(np.max(np.abs(data))) + 1e-300
+    n = int(ok.sum())
+    if n:
+        err = max(float(np.max(np.abs(got_x - want_x)[ok])), float(np.max(np.abs(got_y - want_y)[ok])))
+        if not err <= 64 * EPS * scale:
+            i = np.unravel_index(int(np.argmax(np.where(ok, np.abs(got_x - want_x) + np.abs(got_y - want_y), 0))),
+                                 want_x.shape)
+            raise Violation(
+                f"{grid_label(gspec)}: image data of the vector field at (x, y) = ({xs[i]:.4g}, {ys[i]:.4g}) is "
+                f"({got_x[i]!r}, {got_y[i]!r}) but the stored components (v_r, v_phi) = ({vr[i]!r}, {vp[i]!r}) "
+                f"along e_r, e_phi at phi = {phi[i]:.4g} give ({want_x[i]!r}, {want_y[i]!r})",
+                key="vector-image:polar:rotation")
+    off_axis = bool(np.any(ok & (np.abs(np.sin(phi)) > 0.3)))
+    return {"nt": n >= 4 and off_axis, "labels": [f"grid:{grid_label(gspec)}", f"transpose:{case['transpose']}",
+                                                 "random" if case["random_data"] else "profile"],
+            "key": [gspec["radius"], gspec["shape"], case["seed"], case["random_data"], case["transpose"]]}
+
+
 SUBCHECKS = [
+    SubCheck("vector_image_polar", strategy=vector_image_cases, check=check_vector_image, mode="pure",
+             budget={"quick": 200, "thorough": 3000}, shards={"quick": 1, "thorough": 1},
+             rule="VectorField.get_vector_data on polar grids against the scalar images of the stored components "
+                  "rotated by the textbook unit vectors; non-trivial = >= 4 image points, some off the x axis"),
     SubCheck("bases_on_axis", strategy=axis_cases, check=check_axis, mode="pure",
              budget={"quick": 200, "thorough": 3000}, shards={"quick": 1, "thorough": 1},
              rule="non-trivial = every case (points with r = 0 or theta in {0, pi})"),
